@@ -64,7 +64,10 @@ BitmaskTags(ev) ==
                       IN T(\E i \in 1..Len(ev.wire) :
                               LET r == ev.wire[i] IN
                               r.bits # <<r.w>> \/ r.first # BitSet(r.w, a) \/ r.second # BitSet(r.w, b), "bitmask-accessor")
-                         \o T(\E i \in 1..Len(ev.wire) :
+                         \o T(\E i \in 1..Len(ev.wire) :                 \* C17: the 32 bits themselves survive decode then encode
+                              LET enc == ev.wire[i].enc IN
+                              Len(enc) < 4 \/ SubSeq(enc, Len(enc) - 3, Len(enc)) # ev.wire[i].w, "bitmask-value-lost")
+                         \o T(\E i \in 1..Len(ev.wire) :                 \* C06: the whole record, header included
                               ev.wire[i].enc # AvpRecord(Avp(ev.kind, <<ev.wire[i].w>>)), "bitmask-reencode")
                          \o T(\E i \in 1..4 : ctor[i].enc # AvpRecord(Avp(ev.kind, ctor[i].bits)), "bitmask-reencode"))
 
